@@ -83,6 +83,7 @@ impl CssDestination for RuleDest<'_> {
             args,
             rule: Some(Rule::new(selectors)),
             body: Vec::new(),
+            done: false,
         }
     }
     fn start_atrule(&mut self, name: String, args: Value) -> AtRuleDest<'_> {
@@ -97,6 +98,7 @@ impl CssDestination for RuleDest<'_> {
             args,
             rule,
             body: Vec::new(),
+            done: false,
         }
     }
     fn start_nsrule(&mut self, name: String) -> Result<NsRuleDest<'_>> {
@@ -169,6 +171,7 @@ impl CssDestination for NsRuleDest<'_> {
             args,
             rule: None,
             body: Vec::new(),
+            done: false,
         }
     }
     fn start_nsrule(&mut self, name: String) -> Result<NsRuleDest<'_>> {
@@ -199,6 +202,7 @@ pub struct AtRuleDest<'a> {
     args: Value,
     rule: Option<Rule>,
     body: Vec<AtRuleBodyItem>,
+    done: bool,
 }
 impl<'a> AtRuleDest<'a> {
     pub fn new(
@@ -212,12 +216,24 @@ impl<'a> AtRuleDest<'a> {
             args,
             rule: None,
             body: Vec::new(),
+            done: false,
         }
     }
 }
 
-impl Drop for AtRuleDest<'_> {
-    fn drop(&mut self) {
+impl AtRuleDest<'_> {
+    /// End this at-rule, pushing it to its parent destination.
+    ///
+    /// Unlike just dropping the destination, this reports if the parent
+    /// does not accept the rule.
+    pub fn finish(mut self) -> Result {
+        self.commit()
+    }
+    fn commit(&mut self) -> Result {
+        if self.done {
+            return Ok(());
+        }
+        self.done = true;
         let mut body = std::mem::take(&mut self.body);
         let name = std::mem::take(&mut self.name);
         let args = std::mem::replace(&mut self.args, Value::Null);
@@ -229,10 +245,17 @@ impl Drop for AtRuleDest<'_> {
             }
         }
         let result = AtRule::new(name, args, Some(body));
-        if let Err(err) = self.parent.push_item(result.into()) {
+        self.parent.push_item(result.into())?;
+        self.parent.separate();
+        Ok(())
+    }
+}
+
+impl Drop for AtRuleDest<'_> {
+    fn drop(&mut self) {
+        if let Err(err) = self.commit() {
             eprintln!("Error ending AtRuleDest: {err}");
         }
-        self.parent.separate();
     }
 }
 impl CssDestination for AtRuleDest<'_> {
@@ -252,6 +275,7 @@ impl CssDestination for AtRuleDest<'_> {
             args,
             rule,
             body: Vec::new(),
+            done: false,
         }
     }
     fn start_atrule(&mut self, name: String, args: Value) -> AtRuleDest<'_> {
@@ -266,6 +290,7 @@ impl CssDestination for AtRuleDest<'_> {
             args,
             rule,
             body: Vec::new(),
+            done: false,
         }
     }
     fn start_nsrule(&mut self, name: String) -> Result<NsRuleDest<'_>> {
@@ -331,6 +356,7 @@ pub struct AtMediaDest<'a> {
     args: MediaArgs,
     rule: Option<Rule>,
     body: Vec<AtRuleBodyItem>,
+    done: bool,
 }
 impl<'a> AtMediaDest<'a> {
     pub fn new(parent: &'a mut dyn CssDestination, args: MediaArgs) -> Self {
@@ -339,12 +365,24 @@ impl<'a> AtMediaDest<'a> {
             args,
             rule: None,
             body: Vec::new(),
+            done: false,
         }
     }
 }
 
-impl Drop for AtMediaDest<'_> {
-    fn drop(&mut self) {
+impl AtMediaDest<'_> {
+    /// End this media rule, pushing it to its parent destination.
+    ///
+    /// Unlike just dropping the destination, this reports if the parent
+    /// does not accept the rule.
+    pub fn finish(mut self) -> Result {
+        self.commit()
+    }
+    fn commit(&mut self) -> Result {
+        if self.done {
+            return Ok(());
+        }
+        self.done = true;
         let mut body = std::mem::take(&mut self.body);
         let args =
             std::mem::replace(&mut self.args, MediaArgs::Name(String::new()));
@@ -354,10 +392,17 @@ impl Drop for AtMediaDest<'_> {
             body.push(rule.into());
         }
         let result = MediaRule::new(args, body);
-        if let Err(err) = self.parent.push_item(result.into()) {
-            eprintln!("Error ending AtRuleDest: {err}");
-        }
+        self.parent.push_item(result.into())?;
         self.parent.separate();
+        Ok(())
+    }
+}
+
+impl Drop for AtMediaDest<'_> {
+    fn drop(&mut self) {
+        if let Err(err) = self.commit() {
+            eprintln!("Error ending AtMediaDest: {err}");
+        }
     }
 }
 
@@ -379,6 +424,7 @@ impl CssDestination for AtMediaDest<'_> {
             args,
             rule,
             body: Vec::new(),
+            done: false,
         }
     }
     fn start_atrule(&mut self, name: String, args: Value) -> AtRuleDest<'_> {
@@ -393,6 +439,7 @@ impl CssDestination for AtMediaDest<'_> {
             args,
             rule,
             body: Vec::new(),
+            done: false,
         }
     }
     fn start_nsrule(&mut self, name: String) -> Result<NsRuleDest<'_>> {
